@@ -172,6 +172,8 @@ val map : ('a1 -> 'a2) -> 'a1 list -> 'a2 list
 
 val fold_right : ('a2 -> 'a1 -> 'a1) -> 'a1 -> 'a2 list -> 'a1
 
+val existsb : ('a1 -> bool) -> 'a1 list -> bool
+
 val forallb : ('a1 -> bool) -> 'a1 list -> bool
 
 val repeat : 'a1 -> nat -> 'a1 list
@@ -472,6 +474,10 @@ val pr_stmts : nat -> stmts -> char list list
 
 val print_block : block -> char list list
 
+val exp_vars : cexp -> char list list
+
+val args_vars : cexps -> char list list
+
 val d_cexp_fuel : nat -> sexp -> cexp option
 
 val sexp_depth : sexp -> nat
@@ -638,5 +644,69 @@ val s_rows : value list list -> sexp
 val s_job : job_result -> sexp
 
 val run_run : sexp -> sexp
+
+type lvl =
+| LClean
+| LSet
+| LAny
+
+val lvl_eqb : lvl -> lvl -> bool
+
+val lle : lvl -> lvl -> bool
+
+val lmax : lvl -> lvl -> lvl
+
+type astate = (char list * lvl) list
+
+val aget : char list -> astate -> lvl
+
+val aset : char list -> lvl -> astate -> astate
+
+val ajoin : astate -> astate -> astate
+
+val ale : astate -> astate -> bool
+
+val ai_loop : (astate -> astate option) -> nat -> astate -> astate option
+
+val loop_fuel : nat
+
+val is_mem : char list list -> char list -> bool
+
+val ids_ok : char list list -> char list list -> bool
+
+val exp_ok : char list list -> cexp -> bool
+
+val decl_ok : char list list -> decl -> bool
+
+val fill_ok : char list list -> branch list -> astate -> bool
+
+val awrite : char list list -> char list -> astate -> astate
+
+val ai_stmt : char list list -> branch list -> stmt -> astate -> astate option
+
+val ai_block :
+  char list list -> branch list -> block -> astate -> astate option
+
+val nodupb : char list list -> bool
+
+val member_names : program -> char list list
+
+val initial_astate : program -> astate
+
+val final_ok : program -> astate -> bool
+
+val event_local_state : program -> astate option
+
+val event_local : program -> bool
+
+val lvl_name : lvl -> char list
+
+val s_astate : astate -> sexp
+
+val dg_block :
+  char list list -> branch list -> block -> astate -> (char list * astate)
+  option
+
+val run_event_local : sexp -> sexp
 
 val dispatch : char list -> sexp -> sexp
